@@ -1,4 +1,5 @@
 import PhysisModel.Proofs.MdlGeometry
+import PhysisModel.Proofs.MdlPlaced
 import PhysisModel.Proofs.SoftFloat
 /-!
 # C06 — model parsing yields the stored geometry for every vertex layout
@@ -163,6 +164,74 @@ theorem c06_blendweights_byte4_witness :
         (·.boneWeight) = some [998277376, 998277376, 998277376, 0x3F800000] ∧
     (stdDecode VU.blendWeights VT.byte4 [128, 128, 128, 255] Vertex.default).boneWeight =
       [0x43000000, 0x43000000, 0x43000000, 0x437F0000] := by
+  decide +kernel
+
+/-! ## every placement of the vertex streams
+
+`encodeMdl` stores the streams of a mesh back to back, mesh after mesh (what the library's writer
+produces).  The format addresses every stream through its own `vertex_buffer_offsets[stream]`, so
+the theorems above are restated for `encodeMdlP m p` (`Spec/MdlPlaced.lean`): the same model with
+the vertex section of every LOD given byte for byte and every stream at an arbitrary offset inside
+it — stream-major order, reversed order, gaps / alignment padding, shared bytes — plus arbitrary
+bytes in front of each vertex section and between a vertex and its index section.  `WFP m p` =
+`WF m`, every stream's bytes are found at its offset inside the section (`PlacedOk`), file < 4 GiB.
+What must be reported is the unchanged `view m`. -/
+
+/-- the placed encoder generalises `encodeMdl`: on the back-to-back placement they coincide, and
+every well-formed model with that placement is in the quantifier of the placed theorems (so
+`c06_parse_encode_partial` is the instance `p = canonP m` of `c06_placed_parse_encode_partial`) -/
+theorem c06_placed_canonical (m : AbstractModel) :
+    encodeMdlP m (canonP m) = encodeMdl m ∧ (WF m = true → WFP m (canonP m) = true) :=
+  ⟨encodeMdlP_canon m, wfp_canon m⟩
+
+/-- The element address for an arbitrary placement: no `u32` overflow, equal to the start of the
+LOD's vertex section + the stream's own offset + `offset + stride·k`, and reading there yields
+exactly the slice of the abstract stream. -/
+theorem c06_placed_element_address (m : AbstractModel) (p : Placement) (h : WFP m p = true)
+    (i : Nat) (l : ALod) (hl : m.lods[i]? = some l)
+    (d : Nat) (mesh : AMesh) (hm : l.meshes[d]? = some mesh)
+    (lod : MeshLod) (hlod : (modelDataP m p).lods[i]? = some lod)
+    (row : Mesh) (hrow : (modelDataP m p).meshes[meshBase m i + d]? = some row)
+    (e : VertexElement) (he : e ∈ mesh.decl)
+    (s : AStream) (hs : mesh.streams[e.stream.toNat]? = some s)
+    (k : Nat) (hk : k < mesh.vertexCount.toNat) :
+    ∃ a, elementAddress lod row e k.toUInt16 = .ok a ∧
+      a.toNat = vOffP m p (dataStartP m p) i + p.off (meshBase m i + d) e.stream.toNat
+        + e.offset.toNat + s.stride.toNat * k ∧
+      ∀ n, e.offset.toNat + n ≤ s.stride.toNat →
+        readAt (encodeMdlP m p).toArray a.toNat n
+          = some ((s.data.drop (k * s.stride.toNat + e.offset.toNat)).take n) :=
+  element_addressP m p h i l hl d mesh hm lod hlod row hrow e he s hs k hk
+
+/-- **Parsing reports the stored geometry wherever the streams are placed**: for every well-formed
+abstract model and every placement of its vertex streams inside the LODs' vertex sections,
+`MDL::from_existing` (model) returns the placed layout's header tables and exactly `view m` —
+vertices, indices, sub-meshes, shapes, **the raw streams (each read from its own offset)**, names.
+Same exclusion as `c06_parse_encode_partial` (finding `c06.blendweights-byte4`). -/
+theorem c06_placed_parse_encode_partial (m : AbstractModel) (p : Placement) (h : WFP m p = true)
+    (hw : noWeightsByte4 m = true) (v : View) (hv : view m = some v) :
+    fromExisting (encodeMdlP m p) =
+      .ok { fileHeader := fileHeaderP m p, modelData := modelDataP m p, lods := v.lods,
+            affectedBoneNames := v.affectedBoneNames, materialNames := v.materialNames } :=
+  parse_encodeP m p h hw v hv
+
+theorem c06_placed_parse_encode_view_partial (m : AbstractModel) (p : Placement)
+    (h : WFP m p = true) (hw : noWeightsByte4 m = true) (v : View) (hv : view m = some v) :
+    (fromExisting (encodeMdlP m p)).map MDL.view = .ok v :=
+  parse_encode_viewP m p h hw v hv
+
+/-- a placement of `sampleModel` that is not back to back: stream 1 first, three bytes of padding,
+then stream 0; one byte in front of the vertex section, five between it and the index section -/
+def samplePlacement : Placement :=
+  { vsecs := [[0, 1, 128, 255, 255, 254, 127, 3] ++ [0xEE, 0xEE, 0xEE] ++
+              [0x00, 0x3C, 0x00, 0xC0, 0x01, 0x00, 0x00, 0x3C, 0x00, 0x38, 0xFF, 0x7B,
+               0x00, 0x00, 0x00, 0x80, 0x00, 0x7C, 0x00, 0x00, 0x66, 0x2E, 0x00, 0xBC], [], []],
+    offs := [[11, 0]], vpre := [[0xAB]], ipre := [[1, 2, 3, 4, 5]] }
+
+/-- non-vacuity of the placed theorems: the hypotheses hold on `sampleModel` / `samplePlacement`,
+and that file is not the back-to-back one -/
+example : WFP sampleModel samplePlacement = true ∧
+    encodeMdlP sampleModel samplePlacement ≠ encodeMdl sampleModel := by
   decide +kernel
 
 /-! ## further non-vacuity instances on `sampleModel` -/
